@@ -1,6 +1,7 @@
 (* C07 -- History recall shows entries in order and returns the in-progress line intact.
    Property theorems only. Position p = e_hidx in [0, len]; p = len is "the line being typed". *)
-From RL Require Import UData LineBuffer Editor EditorRun RecallProofs RecallSpec NoPanic RecallWalk.
+From Coq Require Import List.
+From RL Require Import UData Ustr LineBuffer LineBufferTotal Editor EditorRun RecallProofs RecallSpec NoPanic RecallWalk RecallLines.
 
 (* the stored history is read-only for a read: NO input, in either mode, with any helper or binding,
    makes the main loop (reader, keymaps, completion and search sub-loops, every command) change it *)
@@ -104,3 +105,78 @@ Example C07_example :
   fst (read_line ex_U cfg [62; 32]%N None [[111; 108; 100]; [110; 101; 119]]%N (KillRing.kr_new 60) inp)
   = OLine [119; 105; 112]%N.
 Proof. vm_compute. reflexivity. Qed.
+
+(* MULTI-LINE TEXT. Up / Down (and vi k / j, - / +) first move between the lines of the text and only recall at the top /
+   bottom line. With a line break before the cursor, Up is a motion: text, history, position in the history, saved line,
+   undo stack and kill ring are untouched, and the cursor lands at or before the last line break that preceded it (on an
+   earlier line), on a character boundary ... *)
+Theorem C07_up_inside_text :
+  forall (U : UData) (cfg : config) (n : nat) (s : est) (l r : str),
+  buf (e_line s) = l ++ r -> pos (e_line s) = blen l -> In LF l ->
+  exists s' a c, execute U cfg (CLineUpOrPreviousHistory n) s = EOk Proceed s' /\ untouched s s'
+    /\ l = a ++ LF :: c /\ ~ In LF c /\ pos (e_line s') <= blen a /\ wf (e_line s').
+Proof. exact up_inside_text. Qed.
+Print Assumptions C07_up_inside_text.
+
+(* ... and on the top line Up is exactly the history step (C07_previous_shows_entry, C07_recall_walk) *)
+Theorem C07_up_on_top_line :
+  forall (U : UData) (cfg : config) (n : nat) (s : est) (l r : str),
+  buf (e_line s) = l ++ r -> pos (e_line s) = blen l -> ~ In LF l ->
+  execute U cfg (CLineUpOrPreviousHistory n) s = execute U cfg CPreviousHistory s.
+Proof. exact up_on_top_line. Qed.
+Print Assumptions C07_up_on_top_line.
+
+Theorem C07_down_inside_text :
+  forall (U : UData) (cfg : config) (n : nat) (s : est) (l r : str),
+  buf (e_line s) = l ++ r -> pos (e_line s) = blen l -> In LF r ->
+  exists s' a c, execute U cfg (CLineDownOrNextHistory n) s = EOk Proceed s' /\ untouched s s'
+    /\ r = a ++ LF :: c /\ ~ In LF a /\ blen l + blen a + 1 <= pos (e_line s') /\ wf (e_line s').
+Proof. exact down_inside_text. Qed.
+Print Assumptions C07_down_inside_text.
+
+Theorem C07_down_on_bottom_line :
+  forall (U : UData) (cfg : config) (n : nat) (s : est) (l r : str),
+  buf (e_line s) = l ++ r -> pos (e_line s) = blen l -> ~ In LF r ->
+  execute U cfg (CLineDownOrNextHistory n) s = execute U cfg CNextHistory s.
+Proof. exact down_on_bottom_line. Qed.
+Print Assumptions C07_down_on_bottom_line.
+
+(* EDITING A RECALLED ENTRY changes only the edit buffer. What a recall shows is determined by the stored list, the position
+   in it and the saved line (the theorems above); no command other than the eight history-navigation commands writes any of
+   the three, whatever it does to the text ... *)
+Theorem C07_edits_keep_recall_state :
+  forall (U : UData) (cfg : config) (c : cmd) (s : est) (st : status) (s' : est),
+  edit_cmd c = true -> execute U cfg c s = EOk st s' ->
+  e_hist s' = e_hist s /\ e_hidx s' = e_hidx s /\ e_saved s' = e_saved s.
+Proof. intros U cfg c s st s' Hc. exact (execute_keeps_nav U cfg c Hc s st s'). Qed.
+Print Assumptions C07_edits_keep_recall_state.
+
+(* ... so after ANY edit of the entry being shown, Up shows the next older stored entry exactly as stored, Down the next newer
+   one, and Down past the newest the line that was being typed -- never the edited text *)
+Theorem C07_edit_then_previous :
+  forall (U : UData) (cfg : config) (c : cmd) (s : est) (st : status) (s1 : est) (entry : str),
+  edit_cmd c = true -> execute U cfg c s = EOk st s1 -> grow (e_line s1) = true ->
+  0 < e_hidx s <= hlen s -> nth_error (e_hist s) (e_hidx s - 1) = Some entry ->
+  exists s', edit_history_next U cfg true s1 = EOk tt s'
+    /\ buf (e_line s') = entry /\ pos (e_line s') = blen entry /\ e_hidx s' = e_hidx s - 1 /\ e_hist s' = e_hist s.
+Proof. exact edit_then_previous. Qed.
+Print Assumptions C07_edit_then_previous.
+
+Theorem C07_edit_then_next :
+  forall (U : UData) (cfg : config) (c : cmd) (s : est) (st : status) (s1 : est) (entry : str),
+  edit_cmd c = true -> execute U cfg c s = EOk st s1 -> grow (e_line s1) = true ->
+  S (e_hidx s) < hlen s -> nth_error (e_hist s) (S (e_hidx s)) = Some entry ->
+  exists s', edit_history_next U cfg false s1 = EOk tt s'
+    /\ buf (e_line s') = entry /\ pos (e_line s') = blen entry /\ e_hidx s' = S (e_hidx s) /\ e_hist s' = e_hist s.
+Proof. exact edit_then_next. Qed.
+Print Assumptions C07_edit_then_next.
+
+Theorem C07_edit_then_restore :
+  forall (U : UData) (cfg : config) (c : cmd) (s : est) (st : status) (s1 : est),
+  edit_cmd c = true -> execute U cfg c s = EOk st s1 -> grow (e_line s1) = true ->
+  S (e_hidx s) = hlen s -> snd (e_saved s) <= blen (fst (e_saved s)) ->
+  exists s', edit_history_next U cfg false s1 = EOk tt s'
+    /\ buf (e_line s') = fst (e_saved s) /\ pos (e_line s') = snd (e_saved s) /\ e_hidx s' = hlen s
+    /\ e_hist s' = e_hist s.
+Proof. exact edit_then_restore. Qed.
+Print Assumptions C07_edit_then_restore.
